@@ -134,10 +134,9 @@ Qed.
 (* from the invariant to [parse] *)
 Lemma parse_of_Sx : forall cpp ts tr rk,
   Sx cpp ts tr rk -> rk <= 15 -> prep (2 * length (ts ++ [semi])) (ts ++ [semi]) = ts ++ [semi] ->
-  decl_like ts = false ->
   parse cpp ts = Some tr.
 Proof.
-  intros cpp ts tr rk H Hrk Hprep Hd.
+  intros cpp ts tr rk H Hrk Hprep.
   unfold parse, parse_ctx. rewrite Hprep.
   assert (Hc : comp cpp (S (length (ts ++ [semi]))) D_COMMA (st0 [semi], ts ++ [semi]) =
                Some (mkafter (st0 [semi]) ts tr, [semi])).
@@ -149,7 +148,7 @@ Proof.
     - cbn. split; [reflexivity|discriminate].
     - apply pstart_vac. reflexivity.
     - reflexivity.
-    - exact Hd.
+    - right. reflexivity.
     - intros r a Hr. apply quiet_closer; [right; right; reflexivity|lia].
     - intros _ a. apply quiet_closer; [right; right; reflexivity|lia].
     - intros _ a. apply quiet_closer; [right; right; reflexivity|lia].
@@ -163,10 +162,7 @@ Theorem parse_render_stage1 : forall cpp e,
   frag1 e = true -> parse cpp (render e) = Some (tree_of e).
 Proof.
   intros cpp e Hf. destruct (main1 cpp e Hf) as [HS _].
-  apply (parse_of_Sx cpp _ _ (rank e) HS); [apply rank_le| |].
-  - apply prep_no_q. apply alltok_app; [|apply alltok_one; reflexivity].
-    apply frag1_alltok; try reflexivity; try exact Hf; try (intros o; destruct o; reflexivity).
-  - unfold decl_like. apply no_eq_not_decl_like.
-    apply alltok_app; [|apply alltok_one; reflexivity].
-    apply frag1_alltok; try reflexivity; try exact Hf; try (intros o; destruct o; reflexivity).
+  apply (parse_of_Sx cpp _ _ (rank e) HS); [apply rank_le|].
+  apply prep_no_q. apply alltok_app; [|apply alltok_one; reflexivity].
+  apply frag1_alltok; try reflexivity; try exact Hf; try (intros o; destruct o; reflexivity).
 Qed.
